@@ -69,16 +69,41 @@ def corner_blocks(n, dirs):
     return blocks
 
 
+LAYOUT = ['contiguous']      # set per case: memory layout of the field data
+LAYOUTS = ('contiguous', 'every-2nd', 'column', 'real-view')
+
+
+def _as_layout(v, layout):
+    """The vector v in a buffer of the given memory layout (a view)."""
+    v = np.asarray(v)
+    if layout == 'every-2nd':            # strided view into a larger buffer
+        buf = np.full(2*v.size + 1, 7.7, dtype=v.dtype)
+        buf[1::2] = v
+        return buf[1::2]
+    if layout == 'column':               # one column of a C-ordered 2-D array
+        buf = np.full((v.size, 3), 7.7, dtype=v.dtype)
+        buf[:, 1] = v
+        return buf[:, 1]
+    if layout == 'real-view' and v.dtype.kind != 'c':
+        buf = np.full(v.size, 7.7j, dtype=complex)
+        buf.real = v
+        return buf.real                  # the .real view of a complex vector
+    return np.array(v)
+
+
 def smooth(vm, grid, freq, x, b, nu, lr, direct=None):
-    """Apply the real smoother; returns the new field vector."""
+    """Apply the real smoother; returns the new field vector.  The field
+    data lives in memory of the layout selected for the case (the smoother
+    works in place on whatever the Field holds)."""
     import emg3d
-    e = emg3d.Field(grid, data=np.array(x), frequency=freq)
+    e = emg3d.Field(grid, data=_as_layout(x, LAYOUT[0]), frequency=freq)
     s = emg3d.Field(grid, data=np.array(b), frequency=freq)
     emg3d.solver.smoothing(vm, s, e, nu, lr)
     return np.array(e.field)
 
 
 def case(c):
+    LAYOUT[0] = c.get('layout', 'contiguous')
     grid = zoo.mesh({'shape': c['shape'], 'w': c['w']})
     model = zoo.model(grid, c['model'])
     freq = c['freq']
@@ -251,12 +276,17 @@ def run(ctx):
                 for f in FREQS:
                     for lr in range(8):
                         for nu in (1, 2, 3, 4):
+                            i = len(cs)
                             cs.append({'shape': sh, 'w': w, 'model': m,
                                        'freq': f, 'lr': lr, 'nu': nu,
-                                       'full': nu <= 2 or not q})
+                                       'full': nu <= 2 or not q,
+                                       'layout': LAYOUTS[(i + i//4 + i//32)
+                                                         % len(LAYOUTS)]})
     ctx.explore('smoothers', FN, cs, engine='E1',
                 rule='full product shape x widths x model x s x lr 0..7 x '
-                     'nu 1..4; full interior x- and b-bases for nu<=2 '
+                     'nu 1..4 (memory layout of the field data rotating over '
+                     'contiguous / strided / column / real-view); full '
+                     'interior x- and b-bases for nu<=2 '
                      '(thorough: all nu); non-trivial = interior edges exist',
                 time_cap=ctx.budget or (600 if q else 3000))
     cs = [{'n': n, 'kind': k, 'dom': d}
